@@ -551,6 +551,22 @@ def walk_reporter(ctx):
     ops.append(('value_max = m', pm['set'], (T('param', 'm'),), 'setmax'))
     ops.append(('reset()', repo.lookup_method(cls, 'reset'), (), 'reset'))
     ops.append(('reset(m)', repo.lookup_method(cls, 'reset'), (T('param', 'm'),), 'reset'))
+    # the completion state is one boolean attribute initialised by __init__: named `_has_completed` on the pinned tree (False = a completion is still to be announced);
+    # another name, or the opposite polarity (`_armed = True`), is the same monitor. Anything else is a representation the walk does not model.
+    init_ = repo.lookup_method(cls, '__init__')
+    flags_ = {}
+    for a_ in (init_.nodes(ast.Assign) if init_ is not None else []):
+        t_ = a_.targets[0]
+        if isinstance(t_, ast.Attribute) and isinstance(t_.value, ast.Name) and t_.value.id == init_.params[0] and isinstance(const_value(a_.value), bool):
+            flags_[t_.attr] = const_value(a_.value)
+    if '_has_completed' in flags_:
+        flag_attr, done_is = '_has_completed', True
+    elif len(flags_) == 1:
+        flag_attr, init_val = list(flags_.items())[0]
+        done_is = not init_val            # the reporter starts armed: the initial value is the 'not yet announced' one
+    else:
+        ctx.undecided('C19.R1', cls.name, 'the completion state of ProgressReporter is not kept in one boolean attribute initialised by __init__ (%s)' % sorted(flags_))
+        return
     expect_value = {'value = v': T('param', 'v'), 'increment()': T('Add', v0, C(1)), 'set_complete()': m0, 'reset()': C(0), 'reset(m)': C(0)}
     expect_max = {'value_max = m': T('param', 'm'), 'reset(m)': T('param', 'm')}
     for opname, fi, args, kind_ in ops:
@@ -568,7 +584,7 @@ def walk_reporter(ctx):
             if fi.kwarg:
                 env[fi.kwarg] = T('param**', fi.kwarg)
             facts = {('is',) + tuple(sorted([C(None), a], key=repr)): False for a in args}
-            outs = I.run(fi, env=env, heap={(me, '_value'): v0, (me, '_value_max'): m0, (me, '_has_completed'): C(flag)}, facts=facts)
+            outs = I.run(fi, env=env, heap={(me, '_value'): v0, (me, '_value_max'): m0, (me, flag_attr): C(flag if done_is else not flag)}, facts=facts)
             ctx.analysed['paths'] += len(outs)
             for kind, val, st in outs:
                 npaths += 1
@@ -576,7 +592,9 @@ def walk_reporter(ctx):
                     probs.append('%s raises %s' % (opname, val))
                     continue
                 ann_code = sum(1 for e in st.trace if e[0] == 'emit' and e[1] == C('complete'))
-                f2 = st.heap.get((me, '_has_completed'))
+                f2 = st.heap.get((me, flag_attr))
+                if is_c(f2) and isinstance(f2[1], bool) and not done_is:
+                    f2 = C(not f2[1])          # normalised to 'completion announced'
                 v2, m2 = st.heap.get((me, '_value')), st.heap.get((me, '_value_max'))
                 if opname in expect_value and v2 != expect_value[opname]:
                     probs.append('after %s the value is %s, expected %s' % (opname, show(v2), show(expect_value[opname])))
